@@ -230,3 +230,36 @@ example : (runL diamond none (init diamond)
 example : mu diamond (init diamond) = 53 ∧ diamondRun.length = 46 := by decide
 
 end CV.Trav
+
+/-! ## Graph construction: cycles are refused before any visit, the project is not modified
+
+Model: `DepGraph.run` = `newGraph` followed by `checkCycle`, everything `CollectInDependencyOrder` does before `walk`
+is called (so "refused" = no visitor is ever entered: `walk` is not reached). -/
+namespace CV.DepGraph
+
+/-- **cyclic ⇒ refused**: on any finite vertex set closed under the adjacency, a closed walk through some vertex makes
+`checkCycle` answer "cycle" (the depth-first search with fuel `|V| + 1` cannot miss it). -/
+theorem cyclic_refused (adj : Name → List Name) (verts : List Name)
+    (hclosed : ∀ v ∈ verts, ∀ c ∈ adj v, c ∈ verts) (v : Name) (hv : v ∈ verts) (n : Nat) (h : Reaches adj n v v) :
+    checkCycle verts adj = true :=
+  checkCycle_complete adj verts hclosed v hv n h
+
+/-- **acyclic ⇒ accepted**, and the hypothesis of the traversal theorems is the right one: a graph with a rank function
+(`Trav.GraphOK.rank`) passes `checkCycle`; conversely whatever `checkCycle` reports is a real closed walk. -/
+theorem acyclic_accepted (adj : Name → List Name) (verts : List Name) :
+    (∀ rk : Name → Nat, (∀ v c, c ∈ adj v → rk c < rk v) → checkCycle verts adj = false) ∧
+    (checkCycle verts adj = true → ∃ x n, Reaches adj n x x) :=
+  ⟨fun rk hrk => checkCycle_accepts_ranked adj verts rk hrk, checkCycle_sound adj verts⟩
+
+/-- **project unmodified (partial)**: the caller's project is left as it was, whatever the outcome, unless some service
+depends on itself and optionally on a service that is not enabled.  (Without the hypothesis: `Neg/C13.lean`.) -/
+theorem project_unmodified (p : Proj) (hq : ∀ s ∈ p.services, ¬ Quirk (p.services.map (·.name)) s) :
+    (run p).changed = [] :=
+  project_unmodified_partial p hq
+
+/-- non-vacuity: a chain 2 → 1 → 0 with an optional dependency on a missing service satisfies the hypothesis, is
+accepted and unmodified; closing the chain into a cycle is refused -/
+example : (run ⟨[⟨0, [⟨9, false⟩]⟩, ⟨1, [⟨0, true⟩]⟩, ⟨2, [⟨1, true⟩]⟩], []⟩) = ⟨"ok", []⟩ ∧
+          (run ⟨[⟨0, [⟨2, true⟩]⟩, ⟨1, [⟨0, true⟩]⟩, ⟨2, [⟨1, true⟩]⟩], []⟩) = ⟨"cycle", []⟩ := by decide
+
+end CV.DepGraph
